@@ -139,6 +139,16 @@ var c10Queries2 = []string{
 	"SELECT CAST(a AS CHAR) AS v, CONVERT(s, SIGNED) AS w FROM t",
 	"SELECT a FROM t WHERE a = ANY (SELECT a FROM u)",
 	"SELECT INTERVAL 1 DAY + a AS v FROM t",
+	// ranges and indexes outside the array, in FROM (resolved while the query is built)
+	"SELECT a FROM `t[(5:end)]`",
+	"SELECT a FROM `t[(begin:9)]`",
+	"SELECT a FROM `t[(2:1)]`",
+	"SELECT a FROM `t[(3:3)]`",
+	"SELECT a FROM `t[9:0]`",
+	"SELECT a FROM `t.arr[each:5]`",
+	"SELECT a FROM `t[keep=>7]`",
+	"SELECT a, `arr[(4:end)]` AS v FROM t",
+	"SELECT a FROM t WHERE `arr[3]` > 1",
 	// sources that are not arrays of objects
 	"SELECT * FROM a",
 	"SELECT * FROM `a.b`",
